@@ -126,6 +126,9 @@ Definition ok_pstep (cur : proxy) (st : pstep) : bool :=
          | _, _ => false
          end)
   | PMake _ => Bool.eqb (is_ok (ps_err st)) (is_ok (p_open cur))
+  (* delivered exactly once: a hand-over succeeds iff the response is still pending (taproxy.rs:505-525);
+     the second of two handlers that both saw the response must be refused *)
+  | PGive c k => Bool.eqb (is_ok (ps_err st)) (is_some (open_resp cur c k))
   | _ => true
   end.
 
